@@ -5,6 +5,10 @@ ROOT = os.path.dirname(os.path.dirname(os.path.abspath(__file__)))
 
 # id -> (technique, level text, level note, design ref)
 CHECKS = {
+ "C01": ("directed data-flow generation with three oracles: (1) a model-independent invariant (default escaper, no safe, everything escaping: none of < > \" ' in the output), (2) a marking escape function installed with set_escape_fn whose exact bracket structure (which segments were escaped, how many times) is predicted by the reference interpreter, (3) exact text against the reference interpreter under per-template, per-call and changed-after-registration autoescape configurations",
+         "Exploration: 300k generated programs per quick run (x25 thorough, up to 8 hops) of 1-3 flows: 10 source kinds (incl. hot map keys, bytes, host-made safe strings, __tera_context) x 50 hop kinds (assignments, loops over arrays/strings/maps, captures, filter sections, includes, blocks, super(), component arguments in three spellings, component bodies and results, pass-through operators, 15 string filters, container wrapping, host filters/functions registered safe and not safe) x 5 sink shapes (WritePath, WriteTop, inside captures/filter sections/containers) x 8 configurations; every hop/source/sink kind has a coverage floor; render_component API enumerated for 16 hot strings x both flags x body/no body.",
+         "Trusted base: the reference interpreter's escaping rules (escape at the sink, safe marks; Appendix A of DESIGN.md). `&` is not part of the invariant (the statement lists four characters; slicing an already escaped capture may cut an entity).",
+         "DESIGN.md section 4 C01"),
  "C10": ("stateful model-based testing: generated histories of add / batch add / replace / autoescape reconfiguration over a pool of interrelated valid and invalid sources; the model is the map name -> source plus the suffix list, and after every call the instance must be observably equal to a fresh instance built in one batch from the resulting set (success) or the previous set (failure)",
          "Exploration: 120k histories of up to 12 operations (quick; x15 thorough, up to 40) = ~700k add calls of which ~70% fail in one of the ten invalid ways, each followed by a full observation (names, renders with 3 contexts, render_block x 4, template variables, component definitions and API renders) against a fresh instance; 60k final sets reached through two different histories.",
          "Trusted base: Tera::new + add_raw_templates on a fresh instance as the reference. Acceptance is compared only in the stated direction (an incremental add may fail where a batch succeeds); error results are compared by kind, not text.",
